@@ -31,6 +31,11 @@ CLAIMS = {
             "disposer thread), Destruct()/destructors drain with the maximal epoch before delete, general_instant frees once after synchronize, "
             "retire_ptr/batch_retire hand over each element once with the current epoch tag. Buffer delivery itself is C07.", PATHS,
             "DESIGN.md §4 C05"),
+    "C06": ("other", "Structural clauses only: MSQueue/MoirQueue/BasketQueue/OptimisticQueue (HP, DHP) never dereference a node pointer read from "
+            "a shared atomic before hazard-pointer protection (path typestate); the old head is disposed only after this thread's unlinking CAS "
+            "succeeded and the embedded dummy is never retired; RWQueue head/tail pointers are touched only under their locks; FCQueue pairs an "
+            "enqueue with a dequeue only on an empty queue and collide() completes both once. FIFO order / linearizability NOT decided.",
+            "static analysis: path typestate (guard discipline), lockset and path-table rules", "DESIGN.md §4 C06"),
     "C07": ("other", "Path rules with affine value comparison over VyukovMPMCCycleQueue (value and intrusive variants): slot used only after the "
             "claiming CAS under the readiness test, payload access before the releasing sequence store, writer/reader sequence values agree "
             "(pos+1 / pos+mask+1 with mask = capacity-1), same cell index everywhere, full/empty returned only under the stated tests with a "
